@@ -45,6 +45,21 @@ type dagDef struct {
 	OnFailure bool // handler steps, named onFailure / onExit
 	OnExit    bool
 	About     string
+	// Cheap: only the inexpensive observations are applied (un-killed runs with final truth, a run watched by a
+	// long-lived client, a handful of kill points in the end-of-run phase) — no K enumeration, no holds.
+	Cheap bool
+	// MinRecord: the final status record of a run must be longer than this many bytes (else the DAG does not
+	// exercise what it is there for: a check error)
+	MinRecord int
+}
+
+// wide: n independent steps; its status record (every node with its step definition) exceeds 64 KiB.
+func wide(n int) *dagDef {
+	d := &dagDef{Name: fmt.Sprintf("wide%d", n), About: fmt.Sprintf("%d independent steps: a status record of more than 64 KiB", n), Cheap: true, MinRecord: 64 * 1024}
+	for i := 1; i <= n; i++ {
+		d.Steps = append(d.Steps, stepDef{Name: fmt.Sprintf("w%03d", i), Mode: "ok"})
+	}
+	return d
 }
 
 // family: the DAG definitions of a tier.
@@ -55,6 +70,7 @@ func family(thorough bool) []*dagDef {
 		{Name: "failh", About: "a failing step with a dependent step, an onFailure and an onExit handler",
 			Steps:     []stepDef{{Name: "s1", Mode: "fail"}, {Name: "s2", Mode: "ok", Deps: []string{"s1"}}},
 			OnFailure: true, OnExit: true},
+		wide(130),
 		{Name: "one", About: "one step",
 			Steps: []stepDef{{Name: "s1", Mode: "ok"}}},
 		{Name: "par2", About: "two parallel steps, one taking 250 ms",
@@ -67,7 +83,7 @@ func family(thorough bool) []*dagDef {
 	if thorough {
 		return all
 	}
-	return all[:2]
+	return all[:3]
 }
 
 func (d *dagDef) yaml(script, markers string) string {
